@@ -13,6 +13,7 @@ def run(ctx, rep):
     regexrules.rule_negated_handlers_fold_case_alike(ctx, rep, "C09-R7")
     regexrules.rule_line_terminators(ctx, rep, "C09-R8")
     regexrules.rule_quantifier_emitters(ctx, rep, "C09-R9")
+    regexrules.rule_fresh_captures_per_attempt(ctx, rep, "C09-R10")
     rep.undecided += [
         "backtracking priorities, capture reset and empty-iteration semantics for all (pattern, subject) pairs (differential property)",
     ]
